@@ -601,6 +601,12 @@ def batches(images, size, key=None):
         _BATCHES[cache_key] = out
     return out
 
+def rollout(x, steps, constants={}, seen=[]):
+    constants["last"] = steps
+    seen = list(seen)
+    seen.append(x)
+    return x, constants, seen
+
 class Img:
     def __init__(self, data):
         self.data = data
@@ -669,21 +675,68 @@ def _scan_s3(pm):
     return found, dict(keyed_memo_functions=n)
 
 
+def _scan_s4(pm):
+    """S4 mutable default argument changed in place: `def f(x, acc={})` evaluates the default once; a body that
+    inserts into / appends to / updates the parameter (without re-binding it first) changes the one shared object, so a
+    later call that relies on the default sees what earlier calls left behind."""
+    found = []
+    n_defaults = 0
+    for mod in sorted(pm.mods):
+        if pm.is_pkg(mod):
+            continue
+        for qual, fn in pm.functions(mod):
+            a = fn.args
+            pos = list(a.posonlyargs) + list(a.args)
+            pairs = list(zip(pos[len(pos) - len(a.defaults):], a.defaults)) + [(p_, d_) for p_, d_ in zip(a.kwonlyargs, a.kw_defaults) if d_ is not None]
+            for prm, dflt in pairs:
+                mutable = isinstance(dflt, (ast.Dict, ast.List, ast.Set, ast.ListComp, ast.DictComp, ast.SetComp)) or (isinstance(dflt, ast.Call) and isinstance(dflt.func, ast.Name) and dflt.func.id in ("dict", "list", "set", "defaultdict", "OrderedDict"))
+                if not mutable:
+                    continue
+                n_defaults += 1
+                name = prm.arg
+                rebind_lines = [n.lineno for n in ast.walk(fn) if isinstance(n, ast.Assign) and any(isinstance(t, ast.Name) and t.id == name for t in n.targets)]
+                first_rebind = min(rebind_lines) if rebind_lines else 10 ** 9
+                for n in ast.walk(fn):
+                    how = None
+                    if isinstance(n, ast.Assign):
+                        for t in n.targets:
+                            if isinstance(t, ast.Subscript) and isinstance(t.value, ast.Name) and t.value.id == name:
+                                how = "item assignment `%s`" % ast.unparse(n)[:60]
+                    elif isinstance(n, ast.AugAssign):
+                        t = n.target
+                        if (isinstance(t, ast.Name) and t.id == name) or (isinstance(t, ast.Subscript) and isinstance(t.value, ast.Name) and t.value.id == name):
+                            how = "augmented assignment `%s`" % ast.unparse(n)[:60]
+                    elif isinstance(n, ast.Call) and isinstance(n.func, ast.Attribute) and n.func.attr in MUTATING_METHODS and isinstance(n.func.value, ast.Name) and n.func.value.id == name:
+                        how = "mutating call `%s`" % ast.unparse(n)[:60]
+                    elif isinstance(n, ast.Delete):
+                        for t in n.targets:
+                            if isinstance(t, ast.Subscript) and isinstance(t.value, ast.Name) and t.value.id == name:
+                                how = "`%s`" % ast.unparse(n)[:60]
+                    if how and n.lineno < first_rebind:
+                        found.append(dict(kind="mutable-default-mutated", involved=["%s.%s" % (mod, qual)], construct=qual, mod=mod, line=n.lineno,
+                                          what="parameter `%s` has the mutable default `%s`, evaluated once when the function is defined; the %s changes that shared object, so a later call that relies on the default starts from what earlier calls left behind (a sequence of calls is needed to see it)" % (name, ast.unparse(dflt)[:30], how),
+                                          witness="default:%s.%s" % (qual, name)))
+                        break
+    return found, dict(mutable_defaults=n_defaults)
+
+
 def scan(pm):
     f1, s1 = _scan_s1(pm)
     f2, s2 = _scan_s2(pm)
     f3, s3 = _scan_s3(pm)
+    f4, s4 = _scan_s4(pm)
     stats = dict(s1)
     stats.update(s2)
     stats.update(s3)
-    return f1 + f2 + f3, stats
+    stats.update(s4)
+    return f1 + f2 + f3 + f4, stats
 
 
 def selfcheck():
     pm = _MiniPM(_POSITIVE)
     found, stats = scan(pm)
     keys = sorted(f["witness"] for f in found)
-    if keys != ["derived:Img._norm<-set", "derived:Multi._layout<-put", "memo-key:batches", "memo:table<-user"]:
+    if keys != ["default:rollout.constants", "derived:Img._norm<-set", "derived:Multi._layout<-put", "memo-key:batches", "memo:table<-user"]:
         raise AnalysisError("STATE rule self-check failed: the built-in positive example gives %s" % keys)
     return len(found)
 
@@ -700,6 +753,6 @@ def apply(ctx):
             continue
         n += 1
         ctx.add(Finding(ctx.prop, "%s.STATE.%s" % (ctx.prop, f["kind"]), f["construct"], f["what"], ctx.pm.path(f["mod"]), f["line"], None, f["witness"]))
-    ev.instances("%s.STATE.positive_example_reports" % ctx.prop, n_pos, floor=4)
+    ev.instances("%s.STATE.positive_example_reports" % ctx.prop, n_pos, floor=5)
     ev.extra["state_rule"] = dict(stats, findings_in_package=len(found), findings_involving_this_property=n,
-                                  rule="S1 shared-memo mutation, S2 stale derived attribute, S3 memo key that does not determine the result (ginverif/state.py, cachekey.py); whole package scanned, reported where an involved function is analysed by this property")
+                                  rule="S1 shared-memo mutation, S2 stale derived attribute, S3 memo key that does not determine the result, S4 mutable default argument changed in place (ginverif/state.py, cachekey.py); whole package scanned, reported where an involved function is analysed by this property")
